@@ -73,3 +73,47 @@ func H_C16_ostime() {
 	VAssert(isn && int64(bn) == t, "ostime: os.time(os.date('*t', t)) == t")
 	VReach("end")
 }
+
+func two(v int64) []byte { return []byte{byte('0' + v/10), byte('0' + v%10)} }
+
+func four(v int64) []byte {
+	return []byte{byte('0' + v/1000), byte('0' + v/100%10), byte('0' + v/10%10), byte('0' + v%10)}
+}
+
+// C16.osdatefmt — os.date renders each supported directive from the same civil fields, and text around the
+// directives is copied unchanged.
+//
+//verif:harness prop=C16 tier=quick bounds="8 boundary days x every second of the day (symbolic) x 6 format strings over the directives %Y %y %m %d %H %M %S %w with literal text before, between and after them; UTC ('!' formats)"
+func H_C16_osdatefmt() {
+	L := newL(Options{}, BaseLibName, OsLibName)
+	day := []int64{0, 59, 11016, 10956, 24855, -25509, 19782, 47541}[VChoice(8)]
+	s := int64((VU32("s") & 0x1ffff) % 86400)
+	t := day*86400 + s
+	y, m, d := civilFromDays(day)
+	h, mi, se := s/3600, s%3600/60, s%60
+	wd := (day%7 + 7 + 4) % 7
+	k := VChoice(6)
+	format := []string{"!%Y-%m-%d %H:%M:%S", "!%w|%d|%H", "!<%y/%m>%M.", "!x%wd|%S|", "!%H%M%S", "!at %d.%m.%Y, %H h"}[k]
+	var want []byte
+	switch k {
+	case 0:
+		want = append(append(append(append(four(y), '-'), two(int64(m))...), '-'), two(int64(d))...)
+		want = append(append(append(append(append(append(want, ' '), two(h)...), ':'), two(mi)...), ':'), two(se)...)
+	case 1:
+		want = append(append(append(append([]byte{byte('0' + wd)}, '|'), two(int64(d))...), '|'), two(h)...)
+	case 2:
+		want = append(append(append(append(append([]byte{'<'}, two(y%100)...), '/'), two(int64(m))...), '>'), two(mi)...)
+		want = append(want, '.')
+	case 3:
+		want = append(append(append([]byte{'x', byte('0' + wd), 'd', '|'}, two(se)...), '|'))
+	case 4:
+		want = append(append(two(h), two(mi)...), two(se)...)
+	case 5:
+		want = append(append(append(append(append([]byte("at "), two(int64(d))...), '.'), two(int64(m))...), '.'), four(y)...)
+		want = append(append(append(want, []byte(", ")...), two(h)...), []byte(" h")...)
+	}
+	out, err := callLib(L, "os", "date", 1, LString(format), LNumber(float64(t)))
+	VAssert(err == nil, "osdatefmt: os.date succeeds")
+	VAssert(sameBytes(out[0], want), "osdatefmt: each directive renders its field, other text is copied: "+format)
+	VReach("end")
+}
